@@ -341,26 +341,25 @@ class PointTier(textgrid_tier.TextgridTier):
         # Labels are stored without surrounding whitespace (as in the constructor)
         newPoint = Point(newPoint.time, newPoint.label.strip())
 
-        matchList = []
-        i = None
-        for i, point in enumerate(self.entries):
-            if point.time == newPoint.time:
-                matchList.append(point)
-                break
+        # Every point at that time collides (a tier can hold several)
+        matchList = [point for point in self.entries if point.time == newPoint.time]
+        point = newPoint
 
         if len(matchList) == 0:
             self._entries.append(newPoint)
 
         elif collisionMode == constants.IntervalCollision.REPLACE:
-            self.deleteEntry(self.entries[i])
+            for oldPoint in matchList:
+                self.deleteEntry(oldPoint)
             self._entries.append(newPoint)
 
         elif collisionMode == constants.IntervalCollision.MERGE:
-            oldPoint = self.entries[i]
             mergedPoint = Point(
-                newPoint.time, "-".join([oldPoint.label, newPoint.label])
+                newPoint.time,
+                "-".join([oldPoint.label for oldPoint in matchList] + [newPoint.label]),
             )
-            self.deleteEntry(self._entries[i])
+            for oldPoint in matchList:
+                self.deleteEntry(oldPoint)
             self._entries.append(mergedPoint)
 
         else:
